@@ -89,10 +89,19 @@ Definition sparse_check (c : config) : result :=
 Definition validate_solver (c : config) : result :=
   if existsb (solver_eqb (so c)) (SUPPORTED_SOLVERS (be c)) then Ok else Err EPyRates.
 
+(* ONE-LINE MODEL SWITCH (read by harness/c20.py): false = the code as it is (finding F6: get_run_func and
+   get_jacobian_func never validate `solver=`, it only decides whether the integration counts as adaptive: a solver the
+   backend does not have still yields a function); true = the code with
+   /verif/fixes/proposed_fix_C20_solver_in_get_run_func.diff (the backend's _validate_solver is called after the
+   compilation of the graph, before the function is generated). *)
+Definition fixed_F6 : bool := false.
+Definition entry_solver_check (f6 : bool) (c : config) : result :=
+  if f6 && negb (entry_eqb (en c) ERun) then validate_solver c else Ok.
 (* the guards alone *)
-Definition accepts (c : config) : result :=
-  andthen (validate_backend_args c) (andthen (delay_buffer_check c)
-    (match en c with ERun => validate_solver c | EFunc => Ok | EJac => sparse_check c end)).
+Definition accepts_gen (f6 : bool) (c : config) : result :=
+  andthen (validate_backend_args c) (andthen (delay_buffer_check c) (andthen (entry_solver_check f6 c)
+    (match en c with ERun => validate_solver c | EFunc => Ok | EJac => sparse_check c end))).
+Definition accepts := accepts_gen fixed_F6.
 
 (* Loud failures downstream of the guards, observed on the probe models of harness/c20.py (two nodes, one
    operator, mutual edges).  They are not guards (numpy / torch / jax / f2py exceptions, class EOther) but they are
@@ -112,13 +121,15 @@ Definition crash_call (c : config) : bool :=
    module name — under one name a process keeps returning the first model's routine (D29), which then fails at the call *)
 Definition crash (b : bool) : result := if b then Err EOther else Ok.
 
-Definition outcome (c : config) : result :=
-  andthen (validate_backend_args c) (andthen (delay_buffer_check c) (andthen (crash (crash_gen c))
+Definition outcome_gen (f6 : bool) (c : config) : result :=
+  andthen (validate_backend_args c) (andthen (delay_buffer_check c) (andthen (entry_solver_check f6 c)
+   (andthen (crash (crash_gen c))
     (match en c with
      | ERun => andthen (validate_solver c) (crash (crash_call c))
      | EFunc => crash (crash_call c)
      | EJac => andthen (sparse_check c) (crash (crash_call c))
-     end))).
+     end)))).
+Definition outcome := outcome_gen fixed_F6.
 
 (* ---- Impl: what `_solve` does with a solver name when nothing validates it (the if-chains) ---- *)
 Inductive method := MEuler | MHeun | MScipy | MDiffrax.
@@ -144,8 +155,9 @@ Definition implemented (b : backend) (s : solver) : Prop :=
   end.
 Definition mutable_arrays (b : backend) : Prop := b <> BJax.
 Definition fixed_step (s : solver) : Prop := s = SEuler \/ s = SHeun.
+(* the solver must be one the backend has for EVERY entry point: the property speaks of "returning a function or a result" *)
 Definition Supported (c : config) : Prop :=
-  (en c = ERun -> implemented (be c) (so c)) /\
+  implemented (be c) (so c) /\
   (vec c = true -> be c <> BFortran) /\
   (dl c = DDiscrete -> fixed_step (so c) -> mutable_arrays (be c)) /\     (* ring buffer is updated in place *)
   (en c = EJac -> sparse c = true -> mutable_arrays (be c)).             (* csr_matrix cannot take tracers *)
@@ -159,7 +171,7 @@ Definition implementedb (b : backend) (s : solver) : bool :=
   | _, _ => false
   end.
 Definition supportedb (c : config) : bool :=
-  implb (entry_eqb (en c) ERun) (implementedb (be c) (so c)) &&
+  implementedb (be c) (so c) &&
   implb (vec c) (negb (backend_eqb (be c) BFortran)) &&
   implb (delay_eqb (dl c) DDiscrete && (solver_eqb (so c) SEuler || solver_eqb (so c) SHeun)) (negb (backend_eqb (be c) BJax)) &&
   implb (entry_eqb (en c) EJac && sparse c) (negb (backend_eqb (be c) BJax)).
@@ -502,7 +514,7 @@ Definition documented_backend (v : optval) : option bclass :=
 (* ONE-LINE MODEL SWITCH (read by harness/c20.py): false = the code as it is (finding F5: a backend name that is not one
    of the documented ones — 'Torch', 'JAX', 'jaxx', 'tensorflow' — silently selects the numpy backend);
    true = the code with /verif/fixes/proposed_fix_C20_F5.diff (PyRatesException). *)
-Definition fixed_F5 : bool := false.
+Definition fixed_F5 : bool := true.
 Definition backend_result (fixed : bool) (v : optval) : result :=
   match select_backend v with
   | CJulia => Err EPyRates               (* _validate_backend_args: julia_path missing *)
@@ -702,8 +714,15 @@ Definition guard_backend_documented (p : probe) : bool :=
   match p with
   | POption OBackend v => fixed_F5 || match documented_backend v with Some _ => true | None => false end
   | _ => true end.
+(* F6: the solver is validated at this entry point (run), or it is one the backend has *)
+Definition g6 (f6 : bool) (c : config) : bool := f6 || entry_eqb (en c) ERun || implementedb (be c) (so c).
+Definition guard_solver_checked_at_entry (p : probe) : bool :=
+  match p with
+  | PConfig c => g6 fixed_F6 c
+  | PMixed b s v _ e | PPopMixed b s v _ e => g6 fixed_F6 (mixed_config b s v e)
+  | _ => true end.
 Definition guard (p : probe) : bool :=
-  guard_path_not_attr p && guard_node_value_not_circuit p && guard_backend_documented p.
+  guard_path_not_attr p && guard_node_value_not_circuit p && guard_backend_documented p && guard_solver_checked_at_entry p.
 
 (* what the property demands of an observed outcome: a request that is not well-formed must not return quietly;
    a warning is enough for an input / update_var addressed to a missing variable, and for a node-level value
